@@ -10,6 +10,7 @@ import json
 import os
 import re
 import sys
+import time
 
 sys.path.insert(0, os.path.join(os.path.dirname(os.path.dirname(os.path.abspath(__file__))), "lib"))
 import vf
@@ -85,6 +86,8 @@ def first_diff(a, b, path=""):
 
 def run(ctx):
     quick = ctx.tier == "quick"
+    phase = {}
+    t0 = time.time()
     # ---------------------------------------------------------------- translated inventory
     gen_out = os.path.join(ctx.workdir, "MapRanges.v")
     rc, log = vf.sh([os.path.join(ctx.verif, "gen/gen_mapranges/run.sh"), ctx.repo, gen_out],
@@ -97,7 +100,11 @@ def run(ctx):
     inventory = json.load(open(gen_out + ".json"))
     reach = [s for s in inventory if s.get("reachable")]
     ctx.obligations += len(reach)          # one reflective obligation per reachable site
-    pr = ctx.prove()
+    phase["gen_mapranges"] = round(time.time() - t0, 1)
+    t0 = time.time()
+    pr = ctx.prove(extra_targets=["Gov/ChainCheck.vo", "Gov/VprOrder.vo"])
+    phase["prove"] = round(time.time() - t0, 1)
+    t0 = time.time()
     if pr["ok"]:
         ctx.discharged += len(reach)
 
@@ -126,6 +133,8 @@ def run(ctx):
                                                  os.path.join(E, "zz_verif_determ_gather_test.go")], "determ.test")
     if rc != 0:
         raise RuntimeError("determ engine build failed:\n" + log[-3000:])
+    phase["engine_build"] = round(time.time() - t0, 1)
+    t0 = time.time()
     cases = []
     cdir = os.path.join(ctx.verif, "corpus", "C02")
     if os.path.isdir(cdir):
@@ -142,6 +151,8 @@ def run(ctx):
     prods = run_mode(ctx, binp, "produce", [D.strip(c) for c in cases], "produce", procs_p)
     vals = run_mode(ctx, binp, "validate", [{"case": D.strip(c), "produced": p} for c, p in zip(cases, prods[0])], "validate", procs_v)
 
+    phase["engine_runs"] = round(time.time() - t0, 1)
+    ctx.cov["phase_seconds"] = phase
     evals, hist, nontriv = 0, {"blocks": 0, "txs": 0, "included": 0, "skipped": 0, "skip_reasons": {}}, set()
     for i, c in enumerate(cases):
         twin = bool(c.get("_twins"))
@@ -198,6 +209,35 @@ def run(ctx):
                 hist["skip_reasons"][r] = hist["skip_reasons"].get(r, 0) + 1
             kinds = tuple(sorted({t["kind"] for t in blk["txs"]}))
             nontriv.add((c["ver"], kinds, bool(pb.get("skipped"))))
+    # ---------------------------------------------------------------- real block executor vs governance model
+    t0 = time.time()
+    import g8gov as G
+    G.reset_names()
+    items, ids = [], []
+    for c, p in zip(cases, prods[0]):
+        if "ghost_before" in c:
+            continue
+        t = D.chain_case_to_coq(D.strip(c), p)
+        if t:
+            items.append(t)
+            ids.append(c)
+    model_diff = None
+    if items:
+        rc, out = ctx.coq_eval("chain_cases", D.chain_cases_file(items))
+        flat = " ".join(out.split())
+        m = re.search(r"MC = (\[.*?\]|nil) : list", flat)
+        if rc != 0 or not m:
+            model_diff = ("governance model could not be evaluated on the chain engine's observations", out[-2000:])
+        else:
+            bad = re.findall(r"\((\d+)%nat, (\d+)%nat\)", m.group(1))
+            if bad:
+                i, k = int(bad[0][0]), int(bad[0][1])
+                model_diff = ("block executor and governance model differ (%s of block %d)" % ("a transaction outcome" if k % 2 == 0 else "observables after connect", k // 2 + 1),
+                              {"case": D.strip(ids[i]), "block": k // 2 + 1, "n_differing_cases": len(bad),
+                               "produced": prods[0][cases.index(ids[i])]["blocks"][k // 2].get("gov")})
+        evals += sum(len(c["blocks"]) for c in ids)
+    phase["chain_vs_model"] = round(time.time() - t0, 1)
+    ctx.cov["chain_cases_replayed_by_model"] = len(items)
     ctx.cov["evaluations"] = evals
     ctx.cov["traces_validated_against_impl"] = len(cases)
     ctx.cov["distinct_nontrivial"] = len(nontriv)
@@ -218,6 +258,8 @@ def run(ctx):
             ctx.finding(key, what, rep)
     for what, rep in fails[:3]:
         ctx.finding("C02:" + what.split(":")[0].replace(" ", "-")[:60], what, rep)
+    if model_diff and not fails:
+        ctx.violation("correspondence broken: " + model_diff[0], {"correspondence": model_diff[0], "cases": model_diff[1]}, no_input=True)
     if not pr["ok"] and not fails:
         what = "proof obligation no longer checks: %s" % pr["broken"]
         rep = {"theorem_or_file": pr["broken"], "log": pr["log"][-3000:]}
